@@ -120,8 +120,8 @@ var srcC09 = []*g2lTarget{
 		optVars: []string{"err", "policyDoc"},
 		subst:   c09Subst(nil),
 		callSubst: map[string]string{
-			"validatePolicyCore":     "validatePolicyCore parseDN",
-			"policyNames.Add!":       "set.Set.Add",
+			"validatePolicyCore": "validatePolicyCore parseDN",
+			"policyNames.Add!":   "set.Set.Add",
 		},
 	},
 	{
